@@ -132,8 +132,8 @@ pub fn run(tier: Tier) -> i32 {
                 ins.push(c13::In { label: format!("repo file {}", f), fmt: Fmt::Lzma, opts: Opts::default(), bytes: b });
             }
             let full_subst = tier.pick(140usize, 400usize);
-            let splice_max = tier.pick(90usize, 200usize);
-            let pair_max = tier.pick(0usize, 72usize);
+            let splice_max = tier.pick(90usize, 330usize);
+            let pair_max = tier.pick(0usize, 110usize);
             let cases = std::sync::atomic::AtomicU64::new(0);
             // flatten (input, mutation index) so that work is balanced
             let mut jobs: Vec<(usize, u8, usize)> = Vec::new(); // (input, kind, position)
